@@ -70,3 +70,138 @@ mod k {
         assert!((d - k).abs() <= 4.0e-6, "C03.azimuth.shift");
     }
 }
+
+#[cfg(verif_native)]
+mod n {
+    use super::*;
+    use crate::verif_root::support::*;
+    use hulc::bdl::{DaySchedule, Schedule as BSchedule, WeekSchedule, YearSchedule};
+
+    fn data_with(year: YearSchedule, weeks: Vec<WeekSchedule>, days: Vec<DaySchedule>) -> Data {
+        let mut d = Data::default();
+        for x in days {
+            d.schedules.push(BSchedule::Day(x));
+        }
+        for x in weeks {
+            d.schedules.push(BSchedule::Week(x));
+        }
+        d.schedules.push(BSchedule::Year(year));
+        d
+    }
+
+    fn day(name: &str, values: Vec<f32>) -> DaySchedule {
+        DaySchedule { name: name.to_string(), values, ..Default::default() }
+    }
+
+    const GRID: [(u32, u32); 14] = [(1, 1), (31, 1), (28, 2), (1, 3), (31, 3), (30, 4), (15, 6), (30, 6), (1, 7), (31, 7), (31, 8), (30, 9), (31, 10), (30, 12)];
+
+    // C17.convert: end dates -> periods partitioning the 365-day year exactly at those dates
+    #[test]
+    fn n_c17_convert_year() {
+        drive("C17.convert.year", "schedules_from_bdl: yearly schedules given by every increasing list of 0..2 end dates from a 14-date grid followed by 31 Dec, and by every single end date of the year followed by 31 Dec", |c| {
+            let mode = c.pick(2);
+            let mut dates: Vec<(u32, u32)> = vec![];
+            if mode == 0 {
+                let i = c.pick(GRID.len() + 1);
+                if i < GRID.len() {
+                    dates.push(GRID[i]);
+                    let j = c.pick(GRID.len() + 1);
+                    if j < GRID.len() {
+                        if j <= i {
+                            return; // not increasing
+                        }
+                        dates.push(GRID[j]);
+                    }
+                }
+            } else {
+                let k = 1 + c.pick(364) as u32; // ordinal 1..364
+                let mut m = 1;
+                let mut d = k;
+                while d > MONTH_DAYS[(m - 1) as usize] {
+                    d -= MONTH_DAYS[(m - 1) as usize];
+                    m += 1;
+                }
+                dates.push((d, m));
+            }
+            dates.push((31, 12));
+            c.note(format!("{:?}", dates));
+            let weeks: Vec<WeekSchedule> = (0..dates.len()).map(|i| WeekSchedule { name: format!("W{}", i), days: vec!["D".to_string()], ..Default::default() }).collect();
+            let year = YearSchedule { name: "Y".into(), days: dates.iter().map(|d| d.0).collect(), months: dates.iter().map(|d| d.1).collect(), weeks: weeks.iter().map(|w| w.name.clone()).collect(), ..Default::default() };
+            let data = data_with(year, weeks.clone(), vec![day("D", vec![0.5])]);
+            let maps = IdMaps::new(&data);
+            let db = match schedules_from_bdl(&data, &maps) {
+                Ok(db) => db,
+                Err(e) => {
+                    c.check("C17.convert.year.ok", false, || format!("conversion failed: {}", e));
+                    return;
+                }
+            };
+            let y = &db.year[0];
+            let ords: Vec<u32> = dates.iter().map(|(d, m)| ordinal(*d, *m)).collect();
+            let mut want = vec![];
+            let mut prev = 0;
+            for o in &ords {
+                want.push(o - prev);
+                prev = *o;
+            }
+            let got: Vec<u32> = y.values.iter().map(|v| v.1).collect();
+            c.check("C17.convert.year.periods", got == want, || format!("period lengths {:?} want {:?}", got, want));
+            c.check("C17.convert.year.partition", got.iter().sum::<u32>() == 365, || format!("period lengths add up to {}", got.iter().sum::<u32>()));
+            let wids: Vec<Uuid> = weeks.iter().map(|w| maps.schedule_week_id(&w.name).unwrap()).collect();
+            c.check("C17.convert.year.weeks", y.values.iter().map(|v| v.0).collect::<Vec<_>>() == wids, || "weekly schedule ids out of order".to_string());
+            // and the converted database expands to exactly 365 days
+            c.check("C17.convert.year.expands", db.get_year_as_day_sch(y.id).len() == 365, || format!("expands to {} days", db.get_year_as_day_sch(y.id).len()));
+            c.nontrivial(format!("{:?}", dates));
+            c.sample(|| format!("{:?} -> {:?}", dates, got));
+        });
+    }
+
+    // weekly schedules into runs covering 7 days, daily ones into 24 values
+    #[test]
+    fn n_c17_convert_week_day() {
+        drive("C17.convert.week", "schedules_from_bdl: every 7-day list over 2 daily schedule names (128), the 1-name form, daily schedules of 1 / 24 / other lengths", |c| {
+            let form = c.pick(3);
+            let names = ["A", "B"];
+            let days_list: Vec<String> = if form == 0 {
+                (0..7).map(|_| names[c.pick(2)].to_string()).collect()
+            } else if form == 1 {
+                vec![names[c.pick(2)].to_string()]
+            } else {
+                vec![]
+            };
+            let nvals = c.of(&[1usize, 24, 23, 0]);
+            let dvals: Vec<f32> = (0..nvals).map(|h| (h as f32) / 100.0 + 0.25).collect();
+            c.note(format!("week {:?} day values {}", days_list, nvals));
+            let week = WeekSchedule { name: "W".into(), days: if form == 2 { vec!["A".to_string()] } else { days_list.clone() }, ..Default::default() };
+            let year = YearSchedule { name: "Y".into(), days: vec![31], months: vec![12], weeks: vec!["W".into()], ..Default::default() };
+            let data = data_with(year, vec![week], vec![day("A", dvals.clone()), day("B", vec![0.75])]);
+            let maps = IdMaps::new(&data);
+            let r = schedules_from_bdl(&data, &maps);
+            if nvals != 1 && nvals != 24 {
+                c.check("C17.convert.day.bad_length_rejected", r.is_err(), || format!("daily schedule with {} values accepted", nvals));
+                return;
+            }
+            let db = match r {
+                Ok(db) => db,
+                Err(e) => {
+                    c.check("C17.convert.week.ok", false, || format!("conversion failed: {}", e));
+                    return;
+                }
+            };
+            let a = db.day.iter().find(|d| d.name == "A").unwrap();
+            c.check("C17.convert.day.24", a.values.len() == 24 && (0..24).all(|h| a.values[h] == if nvals == 1 { dvals[0] } else { dvals[h] }), || format!("daily values {:?}", a.values));
+            if form != 2 {
+                let w = &db.week[0];
+                let expanded = w.to_day_sch();
+                let ida = maps.schedule_day_id("A").unwrap();
+                let idb = maps.schedule_day_id("B").unwrap();
+                let want: Vec<Uuid> = if form == 0 { days_list.iter().map(|n| if n == "A" { ida } else { idb }).collect() } else { vec![if days_list[0] == "A" { ida } else { idb }; 7] };
+                c.check("C17.convert.week.covers_7", expanded.len() == 7 && w.values.iter().map(|v| v.1).sum::<u32>() == 7, || format!("runs {:?}", w.values.iter().map(|v| v.1).collect::<Vec<_>>()));
+                c.check("C17.convert.week.days", expanded == want, || "expanded weekly schedule differs from the 7-day list".to_string());
+                c.check("C17.convert.week.runs_positive", w.values.iter().all(|v| v.1 >= 1), || "empty run".to_string());
+                c.nontrivial(format!("{:?} {}", days_list, nvals));
+            }
+            c.sample(|| format!("week {:?} -> {:?}", days_list, db.week[0].values.iter().map(|v| v.1).collect::<Vec<_>>()));
+        });
+    }
+}
